@@ -82,6 +82,11 @@ def strategy(tier):
             'op': st.just('emit'), 'ns': ns,
             'to': st.lists(st.integers(0, 2), min_size=2, max_size=4),
             'skip': st.one_of(st.none(), ci), 'alias': st.booleans()}),
+        # an emit with a byte string in its payload
+        st.fixed_dictionaries({
+            'op': st.just('emit'), 'ns': ns, 'binary': st.just(True),
+            'to': st.one_of(st.none(), _room_ref()),
+            'skip': st.none(), 'alias': st.booleans()}),
         st.fixed_dictionaries({'op': st.just('enter'), 'c': ci,
                                'room': st.integers(0, 2)}),
     )
@@ -93,6 +98,9 @@ def strategy(tier):
     return st.fixed_dictionaries({
         'aio': st.booleans(),
         'ntrans': st.integers(2, 6),
+        # how each transport frames what it sends (None: not emulated)
+        'framing': st.lists(st.sampled_from([None, 'ws', 'polling']),
+                            min_size=6, max_size=6),
         # the application's disconnect handler fails at its k-th invocation
         # (asyncio: a coroutine handler, 'cancel' = ends with CancelledError)
         'disc_fault': st.one_of(st.none(), st.none(), st.fixed_dictionaries({
@@ -176,8 +184,11 @@ def _run(case, w):
     for n in NSS:
         sio.on('connect', (lambda sid, environ, auth=None: None), namespace=n)
         sio.on('disconnect', on_disc, namespace=n)
-    for _ in range(case['ntrans']):
-        w.open()
+    for i_ in range(case['ntrans']):
+        t_ = w.open()
+        fr_ = (case.get('framing') or [None] * 6)[i_ % 6]
+        if fr_ is not None:
+            w.h.framing[w.t[t_]] = fr_
     m = Model()
     labels = {'aio': case['aio'], 'nontrivial': False}
     removed = set()   # (ns, repr(room)) whose membership shrank
@@ -369,7 +380,11 @@ def _run(case, w):
                     # engine.io notices the ping timeout inside send(), closes
                     # the socket and reports the disconnect from there
                     dsock.last_ping = 1.0
-            w.do(sio.emit('ev', {'tag': tag}, **kw))
+            payload = {'tag': tag}
+            if op.get('binary'):
+                payload = {'tag': tag, 'blob': b'\x00\x01'}
+                labels['binary_emit'] = True
+            w.do(sio.emit('ev', payload, **kw))
             if dying is not None:
                 dt = w.clients[dying]['t']
                 expected = expected - {dying}
@@ -391,8 +406,8 @@ def _run(case, w):
             for t, pkts in got.items():
                 seen = []
                 for p in pkts:
-                    if p['type'] != wire.EVENT or \
-                            p['data'] != ['ev', {'tag': tag}] or \
+                    if p['type'] not in (wire.EVENT, wire.BINARY_EVENT) or \
+                            p['data'] != ['ev', payload] or \
                             p['id'] is not None:
                         raise Violation('emit-wrong-packet',
                                         'step %d transport %d: %r'
